@@ -2061,3 +2061,32 @@ def _mem_take(I, f, a):
         new = m(I, {"path": key, "args": [ty], "res": {"path": key, "args": [ty]}}, [])
     I.store(a[0], new)
     return old
+
+
+def _ascii_pred(lo_hi_list):
+    def m(I, f, a):
+        v = deref(I, a[0])
+        if hasattr(v, "resolve"):
+            v = v.resolve(I)
+        if isinstance(v, int):
+            return any(lo <= v <= hi for lo, hi in lo_hi_list)
+        res = False
+        for lo, hi in lo_hi_list:
+            if I.truth(I.binop("Ge", v, lo, "u32")) and I.truth(I.binop("Le", v, hi, "u32")):
+                res = True
+                break
+        return res
+    return m
+
+
+for _pfx in ("core::num::<impl u8>::", "core::char::methods::<impl char>::"):
+    MODELS[_pfx + "is_ascii"] = _ascii_pred([(0, 127)])
+    MODELS[_pfx + "is_ascii_graphic"] = _ascii_pred([(33, 126)])
+    MODELS[_pfx + "is_ascii_alphabetic"] = _ascii_pred([(65, 90), (97, 122)])
+    MODELS[_pfx + "is_ascii_alphanumeric"] = _ascii_pred([(48, 57), (65, 90), (97, 122)])
+    MODELS[_pfx + "is_ascii_digit"] = _ascii_pred([(48, 57)])
+    MODELS[_pfx + "is_ascii_uppercase"] = _ascii_pred([(65, 90)])
+    MODELS[_pfx + "is_ascii_lowercase"] = _ascii_pred([(97, 122)])
+    MODELS[_pfx + "is_ascii_control"] = _ascii_pred([(0, 31), (127, 127)])
+    MODELS[_pfx + "is_ascii_whitespace"] = _ascii_pred([(9, 10), (12, 13), (32, 32)])
+    MODELS[_pfx + "is_ascii_punctuation"] = _ascii_pred([(33, 47), (58, 64), (91, 96), (123, 126)])
